@@ -246,9 +246,16 @@ func c05Judge(c *mon.Ctx, a *c05Agg, text []byte, trailing bool, report bool, sh
 	return true
 }
 
-// c05CheckAfterLen: Len() and then Check() on one Document object.
+// c05CheckAfterLen: Len() and then Check() on one Document object. For half of the texts another
+// Document - a text cut off inside a literal - exists at the same time and is checked first: what
+// that scan leaves behind (scanners may be recycled) must not reach this document.
 func c05CheckAfterLen(text []byte, trailing bool) string {
 	d := lib.Doc(string(text), trailing)
+	if len(text)%2 == 0 {
+		bad := lib.Doc([]string{"tru", "\"abc", "-", "1.", "[nul]", "{\"a\": fals"}[len(text)/2%6], trailing)
+		lib.Safe(bad.Check)
+		return lib.Safe(d.Check).Verdict()
+	}
 	lib.SafeVal(d.Len)
 	return lib.Safe(d.Check).Verdict()
 }
